@@ -7,7 +7,7 @@ CONSTANTS Comp = "hub_pro"
   Hosts <- H3
   InitAt <- At3_3
   MovePorts <- Mv_none
-  Dsts <- D_All3
+  Dsts <- D_1UB
   Shapes <- Sh_al
   NBuf = 2
   Gaps <- G_31
